@@ -47,13 +47,18 @@ PredVals == {SeqV(TList(TList(TNum)), <<SeqV(TList(TNum), <<NumV(4), Unk(TNum, N
              SeqV(TTup(<<TDyn>>), <<DynVal>>), SeqV(TList(TTup(<<TNum, TStr>>)), <<SeqV(TTup(<<TNum, TStr>>), <<NumV(4), Unk(TStr, NoRf)>>)>>)}
 PredLines == {[k |-> "mark", api |-> api, xs |-> <<[none |-> TRUE]>>, a |-> <<v>>, vs |-> SetToSeq({<<m>> : m \in MarkPlacements(v)})]
                : api \in {"IsWhollyKnown", "IsKnown", "IsNull", "HasWhollyKnownType"}, v \in PredVals}
+\* a transformation whose callback marks every primitive leaf, applied to values that already carry marks (on sets, lists, maps, at any depth):
+\* the rebuilt value is well-formed (one marker layer, marks of set members on the set)
+TmVals == {SeqV(TSet(TStr), <<StrV(<<"a">>), StrV(<<"b">>)>>), SeqV(TList(TStr), <<StrV(<<"a">>)>>), MapV(TMap(TNum), [a |-> NumV(4)]), SeqV(TTup(<<TNum, TStr>>), <<NumV(0), StrV(<<"a">>)>>),
+           SeqV(TList(TSet(TStr)), <<SeqV(TSet(TStr), <<StrV(<<"a">>)>>)>>), MapV(TObj([a |-> TSet(TNum)]), [a |-> SeqV(TSet(TNum), <<NumV(4), NumV(8)>>)]), SeqV(TSet(TTup(<<TNum, TStr>>)), <<SeqV(TTup(<<TNum, TStr>>), <<NumV(4), StrV(<<"a">>)>>)>>)}
+TmLines == {[k |-> "call", api |-> "TransformMarkLeaves", xs |-> <<[none |-> TRUE]>>, a |-> <<m>>, vs |-> <<>>] : m \in UNION {MarkPlacements(v) \cup {v} : v \in TmVals}}
 \* conversion functions built for representative target types (stdlib.MakeToFunc): every source value (known, null, unknown, marked,
 \* nested unknown) of primitive, collection and structural types, including collections whose element type is an object or a tuple
 ToTargets == {TStr, TNum, TBool, TList(TStr), TSet(TStr), TMap(TStr), TList(TDyn), TSet(TDyn), TMap(TDyn), TDyn, TList(TObj([a |-> TStr])), TObj([a |-> TStr, b |-> TNum])}
 ToSrcT == PrimTypes \cup VT1 \cup TakeN(VT2, 6) \cup {TList(TObj([a |-> TNum])), TSet(TTup(<<TNum, TStr>>)), TMap(TList(TObj([a |-> TNum]))), TList(TTup(<<TStr>>)), TMap(TObj([a |-> TNum, b |-> TStr]))}
 ToLines == UNION {{[k |-> "call", api |-> "fn:to", xs |-> [i \in 1..Len(SetToSeq(ToTargets)) |-> [ty |-> SetToSeq(ToTargets)[i]]], a |-> <<v>>, vs |-> <<>>]
                    : v \in TakeN(Vals(t, W), 4) \cup {Null(t), Unk(t, NoRf), Unk(t, [null |-> "F"]), DynVal, WithMk(Unk(t, NoRf), <<"m1">>)} \cup UNION {TakeN(Weak1(x, TRUE), 2) \cup TakeN(MarkNested(x, <<"m2">>), 1) : x \in TakeN(Vals(t, W), 2)}} : t \in ToSrcT}
-Lines == IF Fam = "to" THEN ToLines ELSE IF Fam = "convert" THEN ConvLines ELSE CtorLines \cup MarkApiLines \cup DupKeyLines \cup HetLines \cup PredLines
+Lines == IF Fam = "to" THEN ToLines ELSE IF Fam = "convert" THEN ConvLines ELSE CtorLines \cup MarkApiLines \cup DupKeyLines \cup HetLines \cup PredLines \cup TmLines
 ASSUME LET sq == SetToSeq(Lines) IN ndJsonSerialize(IOEnv.VOUT, sq) /\ PrintT(<<"GEN", Len(sq)>>)
 VARIABLE x
 Init == x = 0
